@@ -171,8 +171,8 @@ CLAIMED["C26"] = dict(
     technique=TECH)
 CLAIMED["C28"] = dict(
     level="model_checking", design="§4 C28",
-    text="The value dimension of the property for the C front end: over the C27 (constant expressions in initialisers, case labels, enumerators, array sizes), bit-field WIDTH (a field of every integer type, 0-31 bits preceding it, loaded / stored / initialised) and C26 (#if expressions) template families with every integer literal symbolic over its full type range, any path of the real c_to_ir / preprocessor that ends in an exception other than ppci's CompilerError (struct.error, KeyError, ZeroDivisionError, AssertionError, OverflowError, UnboundLocalError ...) is a violation, with the literal values as the model.",
-    note="PARTIAL CLAIM: the structural quantifier ('every syntactically valid input') is not encodable; only the stated template families are examined, in the dimension of their integer literal values, with no definedness premise. C3 and textual-IR front ends are outside. One known finding remains (struct.error for out-of-range constant values, same root cause as the C27 one).",
+    text="For the stated template families of C (constant expressions in initialisers, case labels, enumerators, array sizes; #if expressions; bit-field widths), C3 (constant declarations, array sizes/indices, global initialisers of all 10 integer types, function bodies per operand type, switch/case over every integer type) and textual IR (constants of every type, alloc / variable / blob sizes and alignments, folded constant operations, casts, literal hex data), every explored path of the real front end (C3 / IR: followed by verify_module and optimize level 2) for ALL integer literal values in the stated ranges ends normally or in the front end's diagnostic exception (CompilerError; TaskError for the C3 builder; IrParseException for the IR reader); any other exception (struct.error, KeyError, ZeroDivisionError, AssertionError, ValueError, NotImplementedError ...) is a violation with the literal values as the model.",
+    note="PARTIAL CLAIM: the structural quantifier ('every syntactically valid input') is not encodable; shapes are enumerated templates (quick ~400 C3 + ~240 IR + the C families), literal values are symbolic and decided by the solver, every path is re-run concretely without instrumentation. Operands of products/quotients are range-limited (2^32, 2^16, 300). One known finding remains (struct.error for out-of-range constant values in the C front end, same root cause as the C27 one).",
     technique=TECH)
 
 CLAIMED["C17"] = dict(
